@@ -27,6 +27,15 @@ package state
 //@   local block *xldgpb.InternalBlock
 //@   at Meta.UpdateNextIrreversibleBlockHeight assert irr_args_current: $0 == block.Height && $1 == t.meta.Meta.IrreversibleBlockHeight && $2 == t.meta.Meta.IrreversibleSlideWindow
 //@   at State.updateLatestBlockid assert irr_update_dominates_pointer: sel(irrUpdFor, ifacePtr($1)) == block.Height && bytesEq($0, block.Blockid)
+// C05 / C06: one batch for the block, written by the pointer update; the pool mirror
+// is only cleaned after that write.
+//@   local batch kvdb.Batch
+//@   local persistErr error
+//@   at State.doTxInternal assert [C06] effects_into_the_blocks_batch: $1 == batch
+//@   at State.payFee assert [C06] fee_into_the_blocks_batch: $1 == batch && $2 == block
+//@   at State.processUnconfirmTxs assert [C06] pool_changes_into_the_blocks_batch: $1 == batch && $0 == block
+//@   at State.updateLatestBlockid assert [C06] pointer_into_the_blocks_batch: $1 == batch
+//@   at sync.Map.Delete assert [C05] mirror_only_after_the_write: recv == t.tx.UnconfirmTxInMem ==> persistErr == nil
 
 //@ func State.procTodoBlkForWalk
 //@   property C17
@@ -306,6 +315,46 @@ package state
 // (Both facts are asserted where the pool is loaded: every successful run passes that call.)
 //@   at Tx.SortUnconfirmedTx assert only_on_the_tip: bytesEq(block.PreHash, t.latestBlockid)
 //@   at Tx.SortUnconfirmedTx assert no_output_spent_twice_in_block: blkDistinct(block, len(block.Transactions))
+// C05: the block's batch is not written here - the pool mirror must not move yet.
+//@   nocall sync.Map.Delete [C05] pool_mirror_not_touched_before_the_write
+//@   nocall sync.Map.Store [C05] pool_mirror_not_filled_before_the_write
+//@   nocall Batch.Write [C06] the_callers_batch_is_not_written_here
 //@   at State.undoUnconfirmedTx assert only_conflicting_or_delayed_are_undone: (hasConflict || tooDelayed) && $0 == unconfirmTx && $3 == batch
 //@   loop 1 invariant seen_distinct: 0 <= $i && $i <= len(block.Transactions) && UTXOKeysInBlock != nil && (forall k string :: in(UTXOKeysInBlock, k) ==> UTXOKeysInBlock[k]) && blkSeen(block, UTXOKeysInBlock, $i) && blkDistinct(block, $i)
 //@   loop 2 invariant seen_distinct_partial: 0 <= $i && $i <= len(tx.TxInputs) && 0 <= $i#1 && $i#1 < len(block.Transactions) && tx == block.Transactions[$i#1] && UTXOKeysInBlock != nil && (forall k string :: in(UTXOKeysInBlock, k) ==> UTXOKeysInBlock[k]) && blkSeen(block, UTXOKeysInBlock, $i#1) && blkDistinct(block, $i#1) && (forall i int :: 0 <= i && i < $i ==> in(UTXOKeysInBlock, blkKey(block, $i#1, i))) && (forall i int, j int :: 0 <= i && i < j && j < $i ==> blkKey(block, $i#1, i) != blkKey(block, $i#1, j)) && (forall a int, i int, j int :: 0 <= a && a < $i#1 && 0 <= i && i < len(block.Transactions[a].TxInputs) && 0 <= j && j < $i ==> blkKey(block, a, i) != blkKey(block, $i#1, j))
+
+// ======================= C05 / C06: one batch per operation, memory follows the disk =======================
+// Admitting a pool transaction: its effects and its pool record go into one batch,
+// written once; the in-memory pool mirror and the utxo cache are only touched after
+// that write succeeded; a write error clears the caches.
+//@ func State.doTxSync
+//@   property C06
+//@   local batch kvdb.Batch
+//@   local writeErr error
+//@   local doErr error
+//@   ensures one_atomic_write: kvWrites <= old(kvWrites) + 1 && kvDirect == old(kvDirect) && (result == nil ==> kvWrites == old(kvWrites) + 1)
+//@   at Batch.Write assert pool_record_goes_with_the_effects: recv == batch && sel(sel(batchOp, ifacePtr(batch)), xldgpb.UnconfirmedTablePrefix + str(tx.Txid)) == 1
+//@   at State.doTxInternal assert effects_into_this_batch: $0 == tx && $1 == batch
+//@   at sync.Map.Store assert [C05] mirror_only_after_the_write: recv == t.tx.UnconfirmTxInMem ==> writeErr == nil && doErr == nil
+//@   at CacheFiller.Commit assert [C05] cache_only_after_the_write: writeErr == nil && doErr == nil
+//@   at State.ClearCache assert [C05] caches_dropped_when_the_write_fails: writeErr != nil
+
+// The pointer of the state moves in the batch that carries the block's effects, and
+// that batch is written exactly there; memory follows only a successful write.
+//@ func State.updateLatestBlockid
+//@   property C06
+//@   local writeErr error
+//@   ensures one_atomic_write: kvWrites <= old(kvWrites) + 1 && kvDirect == old(kvDirect) && (result == nil ==> kvWrites == old(kvWrites) + 1 && sel(batchWritten, ifacePtr(batch)))
+//@   at Batch.Write assert pointer_in_the_same_batch: recv == batch && str(sel(sel(batchVal, ifacePtr(batch)), xldgpb.MetaTablePrefix + utxo.LatestBlockKey)) == str(newBlockid)
+//@   at fieldwrite.latestBlockid assert [C05] memory_follows_the_disk: writeErr == nil && $1 == newBlockid
+//@   ensures [C05] failure_keeps_the_pointer: result != nil ==> t.latestBlockid == old(t.latestBlockid)
+
+// Rolling back the pool: one batch, written once; the mirror follows the write.
+//@ func State.RollBackUnconfirmedTx
+//@   property C06
+//@   local batch kvdb.Batch
+//@   local writeErr error
+//@   at State.undoUnconfirmedTx assert into_one_batch: $3 == batch
+//@   at Batch.Write assert that_batch_is_written: recv == batch
+//@   at sync.Map.Delete assert [C05] mirror_only_after_the_write: recv == t.tx.UnconfirmTxInMem ==> writeErr == nil
+//@   at State.ClearCache assert [C05] caches_dropped_when_the_write_fails: writeErr != nil
